@@ -12,7 +12,8 @@ def _cat(parts):
 
 
 def _run_shard(args):
-    cases, base, timeout = args
+    cases, base, timeout = args[:3]
+    solo = len(args) > 3
     res = [None] * len(cases)
     with tempfile.NamedTemporaryFile("w", suffix=".cases", delete=False, dir=BUILD) as f:
         f.write("\n".join(cases) + "\n")
@@ -55,6 +56,11 @@ def _run_shard(args):
                 elif rc in (0, 1): recs.append("END exit %d" % rc)
                 else: recs.append("END died rc=%s" % rc)
                 res[cur] = "|".join(recs)
+                if timed and not solo:
+                    # was it this case, or only the shard's time limit on a loaded machine? run the case on its own: a record
+                    # then counts; no end within 30 s means the real code does not return on this case (judged: `END hang`)
+                    one = _run_shard(([cases[cur]], 0, 30, True))[0]
+                    res[cur] = one[:-len("END timeout")] + "END hang" if one.endswith("END timeout") else one
                 start = cur + 1
             else:
                 start = max(last_done + 1, start + 1) if (timed or rc != 0) and last_done + 1 < len(cases) else len(cases)
